@@ -63,6 +63,11 @@ def total_program(rnd, is_async):
             if rnd.random() < 0.7:
                 cbs[c]["async"] = True
         cbs["machine.on_transition"]["async"] = True
+        for c in keys:
+            if not cbs[c].get("async") and rnd.random() < 0.4:
+                # a plain function that RETURNS an awaitable (a coroutine function behind an ordinary
+                # wrapper): the event's step is over only when that awaitable has been awaited
+                cbs[c]["awaitable"] = True
     return prog
 
 
@@ -107,14 +112,14 @@ def gen_c06(rnd, mode, tier, tolerant_ok=False):
             if c == "machine.on_transition":
                 beh[full] = [{"tok": "S0.0", "pre": 60}]
             continue
-        if m.get("async") and rnd.random() < 0.8:
+        if (m.get("async") or m.get("awaitable")) and rnd.random() < 0.8:
             r = {"pre": rnd.choice([0, 0, 0.001, 0.002, 0.005, 1, 60, 3600])}
             if rnd.random() < 0.3:
                 r["post"] = rnd.choice([0, 0.001, 1])
             beh[full] = [r]
     # nested sends from callbacks, keyed by the token being processed
     alltoks = [s["tok"] for sd in senders for s in sd["sends"]]
-    cands = sorted(c for c, m in prog["cbs"].items() if (m.get("async") or not is_async))
+    cands = sorted(c for c, m in prog["cbs"].items() if (m.get("async") or m.get("awaitable") or not is_async))
     for _ in range(0 if tolerant or burst else rnd.randint(0, 2)):
         c = rnd.choice(cands)
         if not c.startswith("machine."):
